@@ -79,6 +79,9 @@ extern "C" int harness_main() {
   int k = verif_choice("keep_going", 3);             // -k 1, -k 2, -k 0 (unlimited)
   o.failures_allowed = k == 2 ? 1000000 : k + 1;
   o.run.may_fail = true; o.run.failed_touch = true; o.run.sym_exit_code = true;
+#ifdef WITH_JOBSERVER
+  o.token_pool = verif_choice("jobserver_tokens", 2);      // the implicit slot plus 0..1 explicit tokens
+#endif
   load_reference();
   // which log records exist before
   InvocationResult r = invoke(o);
